@@ -213,7 +213,7 @@ Proof. destruct r; reflexivity. Qed.
 
 (* What one step can do. *)
 Inductive trans (s : st) : op -> st -> out -> Prop :=
-| T_same o x : (match x with OTokens _ | OCode _ | OAuthz (Some _) | OLogin true => False | _ => True end) -> trans s o s x
+| T_same o x : (match x with OAuthz None | OLogin false | OCbErr | OCbFail | OErr _ _ => True | _ => False end) -> trans s o s x
 | T_authorize cl uri scopes nonce chal :
     trans s (Authorize cl uri scopes nonce chal)
       {| reqs := {| q_id := S (next s); q_client := cl; q_uri := uri; q_scopes := scopes; q_nonce := nonce;
@@ -326,5 +326,44 @@ Proof.
       replace x with (snd (finish_refresh Legacy s t c scopes)) by now rewrite Hi.
       now apply finish_refresh_trans.
 Qed.
+
+
+Lemma trans_code_inv s cr code uri ver s' t :
+  trans s (TokenCode cr code uri ver) s' (OTokens t) ->
+  exists cd q c, code = Some cd /\ code_req s cd = Some q /\ find_client cf (q_client q) = Some c
+    /\ cred_proves cf cr (q_client q) = true /\ uri = q_uri q
+    /\ (forall ch, q_chal q = Some ch -> chal_ok H ch ver = true)
+    /\ (is_public c = true -> q_chal q <> None)
+    /\ issue_code s q c = (s', OTokens t).
+Proof.
+  intro Ht. inversion Ht; subst; [contradiction|].
+  match goal with Hc : code_req s ?cd = Some ?q, Hf : find_client cf (q_client ?q) = Some ?c |- _ =>
+    exists cd, q, c; repeat (split; [solve [auto]|]); reflexivity end.
+Qed.
+
+Lemma trans_refresh_inv s cr rt scopes s' t0 :
+  trans s (TokenRefresh cr rt scopes) s' (OTokens t0) ->
+  exists n t c sc, rt = Some n /\ find_rt s n = Some t /\ find_client cf (r_client t) = Some c
+    /\ c_refresh c = true /\ f_refresh cf = true /\ cred_proves cf cr (r_client t) = true
+    /\ narrowed scopes (r_scopes t) = Some sc
+    /\ issue_refresh s t c sc = (s', OTokens t0).
+Proof.
+  intro Ht. inversion Ht; subst; [contradiction|].
+  match goal with Hf : find_rt s ?n = Some ?t, Hc : find_client cf (r_client ?t) = Some ?c,
+                  Hn : narrowed scopes (r_scopes ?t) = Some ?sc |- _ =>
+    exists n, t, c, sc; repeat (split; [solve [auto]|]); reflexivity end.
+Qed.
+
+Lemma trans_callback_inv s n s' c :
+  trans s (Callback n) s' (OCode c) -> exists q, find_req s n = Some q /\ q_done q = true.
+Proof. intro Ht. inversion Ht; subst; [contradiction | eauto]. Qed.
+
+Lemma trans_refresh_refused s cr rt sc s' x :
+  trans s (TokenRefresh cr rt sc) s' x -> is_tokens x = false -> s' = s.
+Proof. intros Ht Hk. inversion Ht; subst; try reflexivity; discriminate. Qed.
+
+Lemma trans_code_refused s cr code uri ver s' x :
+  trans s (TokenCode cr code uri ver) s' x -> is_tokens x = false -> s' = s.
+Proof. intros Ht Hk. inversion Ht; subst; try reflexivity; discriminate. Qed.
 
 End P.
